@@ -271,7 +271,7 @@ func (m *Machine) stub(fn *ssa.Function, args []Value) (Value, bool) {
 		invalidR := m.tt.And(zeroHead, m.tt.Cmp("bvule", cells[want-1], m.c8(1)))
 		if !m.branch(validR) {
 			if !m.branch(invalidR) {
-				m.end("vacuous", "ElGamal/DSA public key outside the modelled regions")
+				m.end("assumed", "ElGamal/DSA public key outside the two modelled regions (first byte 0 and last byte >= 2: valid; value 0 or 1: invalid)")
 			}
 			if strings.Contains(name, "dsa") {
 				return Tuple{m.zero(results.At(0).Type()), m.newErr("invalid dsa key", nil)}, true
